@@ -218,7 +218,10 @@ def judge_trace(ctx, binp, cfgs, trp, replay_obj):
     # reproduce before reporting: observe the rejected inputs again (3 times), judge again
     confirmed = dict(rejected)
     if rejected and replay_obj is None:
-        idx = sorted(rejected)
+        # (bounded: the first rejected corpus line and the first 100 rejected random lines are re-checked and reported)
+        idx = [i for i in sorted(rejected) if recs[i]["src"] != "random"][:1] + [i for i in sorted(rejected) if recs[i]["src"] == "random"][:100]
+        ctx.notes["rejected_not_rechecked"] = len(rejected) - len(idx)
+        confirmed = {i: rejected[i] for i in idx}
         for k in range(3):
             again = reobserve(ctx, binp, [recs[i] for i in idx], "r%d" % k)
             rej2 = tlc_judge(ctx, again, trp + ".again")
